@@ -7,7 +7,14 @@ import (
 	"os"
 
 	"verifharness/internal/c06"
+	"verifharness/internal/c08"
 	"verifharness/internal/c11"
+	"verifharness/internal/c14"
+	"verifharness/internal/c15"
+	"verifharness/internal/c16"
+	"verifharness/internal/c17"
+	"verifharness/internal/c18"
+	"verifharness/internal/c19"
 	"verifharness/internal/common"
 )
 
@@ -15,11 +22,20 @@ type sub func(tier string, seed int64, outDir string) *common.Meta
 
 var subs = map[string]sub{
 	"c06": c06.Run,
+	"c08": c08.Run,
+	"c14": c14.Run,
+	"c15": c15.Run,
+	"c16": c16.Run,
+	"c17": c17.Run,
+	"c18": c18.Run,
+	"c19": c19.Run,
 	"c11": c11.Run,
 }
 
 var gens = map[string]func(outDir string) error{
-	"registry": c06.GenRegistry,
+	"registry":  c06.GenRegistry,
+	"ruletable": c15.GenRuleTable,
+	"ir":        c17.GenIR,
 }
 
 func main() {
